@@ -535,6 +535,7 @@ var arrayEncodeBeginOps = []func(*arrayEncoderEngine, func()){
 
 var arrayFormatsGeneral = []string{
 	configuration.CTEEncodingFormatDecimal:               "%v",
+	configuration.CTEEncodingFormatFlagZeroFilled:        "%v",
 	configuration.CTEEncodingFormatBinary:                "%b",
 	configuration.CTEEncodingFormatBinaryZeroFilled:      "%b",
 	configuration.CTEEncodingFormatOctal:                 "%o",
@@ -545,6 +546,7 @@ var arrayFormatsGeneral = []string{
 
 var arrayFormats8 = []string{
 	configuration.CTEEncodingFormatDecimal:               "%v",
+	configuration.CTEEncodingFormatFlagZeroFilled:        "%v",
 	configuration.CTEEncodingFormatBinary:                "%b",
 	configuration.CTEEncodingFormatBinaryZeroFilled:      "%08b",
 	configuration.CTEEncodingFormatOctal:                 "%o",
@@ -555,6 +557,7 @@ var arrayFormats8 = []string{
 
 var arrayFormats16 = []string{
 	configuration.CTEEncodingFormatDecimal:               "%v",
+	configuration.CTEEncodingFormatFlagZeroFilled:        "%v",
 	configuration.CTEEncodingFormatBinary:                "%b",
 	configuration.CTEEncodingFormatBinaryZeroFilled:      "%016b",
 	configuration.CTEEncodingFormatOctal:                 "%o",
@@ -565,6 +568,7 @@ var arrayFormats16 = []string{
 
 var arrayFormats32 = []string{
 	configuration.CTEEncodingFormatDecimal:               "%v",
+	configuration.CTEEncodingFormatFlagZeroFilled:        "%v",
 	configuration.CTEEncodingFormatBinary:                "%b",
 	configuration.CTEEncodingFormatBinaryZeroFilled:      "%032b",
 	configuration.CTEEncodingFormatOctal:                 "%o",
@@ -575,6 +579,7 @@ var arrayFormats32 = []string{
 
 var arrayFormats64 = []string{
 	configuration.CTEEncodingFormatDecimal:               "%v",
+	configuration.CTEEncodingFormatFlagZeroFilled:        "%v",
 	configuration.CTEEncodingFormatBinary:                "%b",
 	configuration.CTEEncodingFormatBinaryZeroFilled:      "%064b",
 	configuration.CTEEncodingFormatOctal:                 "%o",
@@ -585,6 +590,7 @@ var arrayFormats64 = []string{
 
 var arrayHeadersUint8 = []string{
 	configuration.CTEEncodingFormatDecimal:               "@u8[",
+	configuration.CTEEncodingFormatFlagZeroFilled:        "@u8[",
 	configuration.CTEEncodingFormatBinary:                "@u8b[",
 	configuration.CTEEncodingFormatBinaryZeroFilled:      "@u8b[",
 	configuration.CTEEncodingFormatOctal:                 "@u8o[",
@@ -594,6 +600,7 @@ var arrayHeadersUint8 = []string{
 }
 var arrayHeadersUint16 = []string{
 	configuration.CTEEncodingFormatDecimal:               "@u16[",
+	configuration.CTEEncodingFormatFlagZeroFilled:        "@u16[",
 	configuration.CTEEncodingFormatBinary:                "@u16b[",
 	configuration.CTEEncodingFormatBinaryZeroFilled:      "@u16b[",
 	configuration.CTEEncodingFormatOctal:                 "@u16o[",
@@ -603,6 +610,7 @@ var arrayHeadersUint16 = []string{
 }
 var arrayHeadersUint32 = []string{
 	configuration.CTEEncodingFormatDecimal:               "@u32[",
+	configuration.CTEEncodingFormatFlagZeroFilled:        "@u32[",
 	configuration.CTEEncodingFormatBinary:                "@u32b[",
 	configuration.CTEEncodingFormatBinaryZeroFilled:      "@u32b[",
 	configuration.CTEEncodingFormatOctal:                 "@u32o[",
@@ -612,6 +620,7 @@ var arrayHeadersUint32 = []string{
 }
 var arrayHeadersUint64 = []string{
 	configuration.CTEEncodingFormatDecimal:               "@u64[",
+	configuration.CTEEncodingFormatFlagZeroFilled:        "@u64[",
 	configuration.CTEEncodingFormatBinary:                "@u64b[",
 	configuration.CTEEncodingFormatBinaryZeroFilled:      "@u64b[",
 	configuration.CTEEncodingFormatOctal:                 "@u64o[",
@@ -621,6 +630,7 @@ var arrayHeadersUint64 = []string{
 }
 var arrayHeadersInt8 = []string{
 	configuration.CTEEncodingFormatDecimal:               "@i8[",
+	configuration.CTEEncodingFormatFlagZeroFilled:        "@i8[",
 	configuration.CTEEncodingFormatBinary:                "@i8b[",
 	configuration.CTEEncodingFormatBinaryZeroFilled:      "@i8b[",
 	configuration.CTEEncodingFormatOctal:                 "@i8o[",
@@ -630,6 +640,7 @@ var arrayHeadersInt8 = []string{
 }
 var arrayHeadersInt16 = []string{
 	configuration.CTEEncodingFormatDecimal:               "@i16[",
+	configuration.CTEEncodingFormatFlagZeroFilled:        "@i16[",
 	configuration.CTEEncodingFormatBinary:                "@i16b[",
 	configuration.CTEEncodingFormatBinaryZeroFilled:      "@i16b[",
 	configuration.CTEEncodingFormatOctal:                 "@i16o[",
@@ -639,6 +650,7 @@ var arrayHeadersInt16 = []string{
 }
 var arrayHeadersInt32 = []string{
 	configuration.CTEEncodingFormatDecimal:               "@i32[",
+	configuration.CTEEncodingFormatFlagZeroFilled:        "@i32[",
 	configuration.CTEEncodingFormatBinary:                "@i32b[",
 	configuration.CTEEncodingFormatBinaryZeroFilled:      "@i32b[",
 	configuration.CTEEncodingFormatOctal:                 "@i32o[",
@@ -648,6 +660,7 @@ var arrayHeadersInt32 = []string{
 }
 var arrayHeadersInt64 = []string{
 	configuration.CTEEncodingFormatDecimal:               "@i64[",
+	configuration.CTEEncodingFormatFlagZeroFilled:        "@i64[",
 	configuration.CTEEncodingFormatBinary:                "@i64b[",
 	configuration.CTEEncodingFormatBinaryZeroFilled:      "@i64b[",
 	configuration.CTEEncodingFormatOctal:                 "@i64o[",
@@ -657,6 +670,7 @@ var arrayHeadersInt64 = []string{
 }
 var arrayHeadersFloat16 = []string{
 	configuration.CTEEncodingFormatDecimal:               "@f16[",
+	configuration.CTEEncodingFormatFlagZeroFilled:        "@f16[",
 	configuration.CTEEncodingFormatBinary:                "@f16b[",
 	configuration.CTEEncodingFormatBinaryZeroFilled:      "@f16b[",
 	configuration.CTEEncodingFormatOctal:                 "@f16o[",
@@ -666,6 +680,7 @@ var arrayHeadersFloat16 = []string{
 }
 var arrayHeadersFloat32 = []string{
 	configuration.CTEEncodingFormatDecimal:               "@f32[",
+	configuration.CTEEncodingFormatFlagZeroFilled:        "@f32[",
 	configuration.CTEEncodingFormatBinary:                "@f32b[",
 	configuration.CTEEncodingFormatBinaryZeroFilled:      "@f32b[",
 	configuration.CTEEncodingFormatOctal:                 "@f32o[",
@@ -675,6 +690,7 @@ var arrayHeadersFloat32 = []string{
 }
 var arrayHeadersFloat64 = []string{
 	configuration.CTEEncodingFormatDecimal:               "@f64[",
+	configuration.CTEEncodingFormatFlagZeroFilled:        "@f64[",
 	configuration.CTEEncodingFormatBinary:                "@f64b[",
 	configuration.CTEEncodingFormatBinaryZeroFilled:      "@f64b[",
 	configuration.CTEEncodingFormatOctal:                 "@f64o[",
